@@ -183,4 +183,60 @@ pub fn run(ctx: &mut Ctx) {
             });
         }
     }
+    // field-width boundaries of a build record: the output count is a 15-bit field (the top bit
+    // marks a build record), the dependency count a 16-bit one.  A record that does not fit must not
+    // be written; one that just fits must read back, and the records after it stay attributable.
+    let big = std::env::var("N2V_DB_BIG").is_ok();
+    let mut shapes: Vec<(usize, usize)> = vec![(2, 65535), (2, 65536)];
+    if ctx.thorough() { shapes.push((1, 70000)); }
+    if big { shapes.extend([(32767, 0), (32768, 0)]); }
+    for (nouts, ndeps) in shapes {
+        tp.reset();
+        let names: Vec<String> = (0..nouts + 3).map(|i| format!("f{}", i)).collect();
+        let g = G { names: names.clone(), builds: vec![(0..nouts).collect(), vec![nouts]] };
+        let ws = vec![
+            W { build: 0, deps: (0..ndeps).map(|i| nouts + 1 + (i % 2)).collect(), hash: 77 },
+            W { build: 1, deps: vec![nouts + 1], hash: 78 },
+        ];
+        ctx.count("field_width_boundary");
+        let case = format!("dbw {} {}", graph_tokens(&g), writes_tokens(&ws));
+        let mut full: Vec<u8> = vec![];
+        ctx.emit(&case, || {
+            let _ = std::fs::remove_file(dbp);
+            let mut graph = mk_graph(&g);
+            let mut hashes = v::Hashes::default();
+            let r = std::panic::catch_unwind(std::panic::AssertUnwindSafe(|| -> Result<(), String> {
+                let mut w = v::db_open(dbp, &mut graph, &mut hashes).map_err(|e| e.to_string())?;
+                do_writes(&mut graph, &mut w, &g, &ws)
+            }));
+            match r {
+                Ok(Ok(())) => { full = std::fs::read(dbp).unwrap(); format!("ok {}", hex(&full)) }
+                Ok(Err(e)) => format!("err {}", hex(e.as_bytes())),
+                Err(p) => format!("panic {}", hex(panic_message(p).as_bytes())),
+            }
+        });
+        if full.is_empty() { continue; }
+        let ws2 = vec![W { build: 1, deps: vec![], hash: 79 }];
+        let k = full.len();
+        let case = format!("dbr {} {} {} {}", hex(&full), k, graph_tokens(&g), writes_tokens(&ws2));
+        ctx.emit(&case, || {
+            std::fs::write(dbp, &full[..k]).unwrap();
+            let mut graph = mk_graph(&g);
+            let mut hashes = v::Hashes::default();
+            let r = std::panic::catch_unwind(std::panic::AssertUnwindSafe(|| -> Result<String, String> {
+                let mut w = v::db_open(dbp, &mut graph, &mut hashes).map_err(|e| e.to_string())?;
+                let loaded = loaded_tokens(&graph, &hashes);
+                let len_after_open = std::fs::metadata(dbp).unwrap().len();
+                do_writes(&mut graph, &mut w, &g, &ws2)?;
+                drop(w);
+                let fin = std::fs::read(dbp).unwrap();
+                Ok(format!("ok {} {} {}", loaded, len_after_open, hex(&fin)))
+            }));
+            match r {
+                Ok(Ok(s)) => s,
+                Ok(Err(e)) => format!("err {}", hex(e.as_bytes())),
+                Err(p) => format!("panic {}", hex(panic_message(p).as_bytes())),
+            }
+        });
+    }
 }
